@@ -401,6 +401,119 @@ fn run_crafted_v6(c: &CraftedV6) -> Outcome {
     o
 }
 
+#[derive(Clone, Debug, Hash, Serialize, Deserialize)]
+pub struct ParsedAttrCase {
+    pub key: KeyKind,
+    pub hash: u8,
+    /// sub-record length written in the five-octet form whatever its value
+    pub long_form: bool,
+    /// sub-record size: type octet + content
+    pub size: usize,
+    /// attribute type octet (1 = image)
+    pub typ: u8,
+}
+
+/// User attributes that arrive from the wire (other implementations' framing of the sub-record
+/// length included): what is hashed is the packet body as it was certified.
+fn run_parsed_attr(c: &ParsedAttrCase) -> Outcome {
+    use pgp::packet::{PacketParser, SignatureConfig, Subpacket, SubpacketData};
+    let cert = common::cert(c.key, 1);
+    let key = &cert.primary_key;
+    let pk = key.public_key();
+    let hash = common::msg::HASHES[c.hash as usize];
+    let v6 = c.key.is_v6();
+    // the attribute packet body
+    let mut rec = vec![c.typ];
+    if c.typ == 1 && c.size >= 17 {
+        rec.extend_from_slice(&[0x10, 0x00, 0x01, 0x01]);
+        rec.extend_from_slice(&[0u8; 12]);
+    }
+    while rec.len() < c.size {
+        rec.push(0x40 + (rec.len() % 23) as u8);
+    }
+    rec.truncate(c.size.max(1));
+    let mut body = Vec::new();
+    if c.long_form {
+        body.push(0xFF);
+        body.extend_from_slice(&(rec.len() as u32).to_be_bytes());
+    } else {
+        let framed = sigs::raw_subpacket(rec[0], false, &rec[1..]);
+        body.extend_from_slice(&framed[..framed.len() - rec.len()]);
+    }
+    body.extend_from_slice(&rec);
+    let framed = crate::reference::frame::frame_min(17, &body);
+    let ua = match PacketParser::new(&framed[..]).next() {
+        Some(Ok(pgp::packet::Packet::UserAttribute(u))) => u,
+        // attributes the library does not take (e.g. an image shorter than its header)
+        _ => return Outcome::trivial("attribute-not-accepted"),
+    };
+    let what = format!("{:?} hash {} sub-record of {} octets type {} {}", c.key, c.hash, c.size, c.typ, if c.long_form { "five-octet length" } else { "minimal length" });
+    let pub_body = pk.to_bytes().expect("key");
+    let mut o = Outcome::ok("digest-equal");
+    // (a) the library certifies the parsed attribute
+    let made = (|| -> pgp::errors::Result<(Vec<u8>, Vec<u8>)> {
+        let typ = pgp::packet::SignatureType::CertPositive;
+        let mut cfg = if v6 { SignatureConfig::v6(crate::engine::rng(5), typ, key.algorithm(), hash)? } else { SignatureConfig::v4(typ, key.algorithm(), hash) };
+        cfg.hashed_subpackets = vec![
+            Subpacket::regular(SubpacketData::SignatureCreationTime(pgp::types::Timestamp::from_secs(common::NOW)))?,
+            Subpacket::regular(SubpacketData::IssuerFingerprint(key.fingerprint()))?,
+        ];
+        let rs = common::RecSigner::new(key);
+        let sig = cfg.sign_certification(&rs, pk, &Password::empty(), pgp::types::Tag::UserAttribute, &ua)?;
+        Ok((sig.to_bytes()?, rs.last().unwrap_or_default()))
+    })();
+    match made {
+        Ok((sig_body, seen)) => match sigs::reference_digest(&sig_body, SigKind::CertUserAttr, &[], &pub_body, &[], &body) {
+            Ok(want) => {
+                if want != seen {
+                    o.push(
+                        format!("C11:parsed-attribute:v{}:signed-digest-differs-from-rfc", if v6 { 6 } else { 4 }),
+                        format!("{what}: signed digest {} != RFC digest over the wire body {}", hex::encode(&seen), hex::encode(&want)),
+                    );
+                }
+                // ... and verifies it, over the same digest
+                if let Ok(sig2) = sigs::sig_from_body(&sig_body) {
+                    let rv = RecVerifier::new(pk);
+                    let wrapped = WithSer(&rv, pk);
+                    let r = sig2.verify_third_party_certification(pk, &wrapped, pgp::types::Tag::UserAttribute, &ua);
+                    if let Some(sv) = rv.last() {
+                        if sv != want {
+                            o.push("C11:parsed-attribute:verified-digest-differs-from-rfc", format!("{what}: {} != {}", hex::encode(&sv), hex::encode(&want)));
+                        }
+                    }
+                    if let Err(e) = r {
+                        o.push("C11:parsed-attribute:own-signature-rejected", format!("{what}: {e}"));
+                    }
+                }
+            }
+            Err(e) => o.push("C11:reference-error", format!("{what}: {e}")),
+        },
+        // a hash the key's algorithm refuses to sign with
+        Err(_) => return Outcome::trivial("signer-refuses"),
+    }
+    // (b) a certification made by the model over the wire bytes is accepted
+    let mut hashed = sigs::raw_subpacket(2, false, &common::NOW.to_be_bytes());
+    let mut fp = vec![if v6 { 6u8 } else { 4 }];
+    fp.extend_from_slice(pk.fingerprint().as_bytes());
+    hashed.extend_from_slice(&sigs::raw_subpacket(33, false, &fp));
+    let salt_len = [16usize, 32, 24, 16, 32, 16][c.hash as usize % 6];
+    let salt: Vec<u8> = (0..salt_len).map(|i| 0x51 + i as u8).collect();
+    let kf = sigs::key_frame(&pub_body);
+    let mut prefix = vec![0xD1];
+    prefix.extend_from_slice(&(body.len() as u32).to_be_bytes());
+    if let Ok(sig_body) = sigs::craft_signature(key, if v6 { 6 } else { 4 }, 0x13, hash, &hashed, &[], &salt, &[&kf[..], &prefix[..], &body[..]]) {
+        match sigs::sig_from_body(&sig_body) {
+            Ok(sig) => {
+                if let Err(e) = sig.verify_certification(pk, pgp::types::Tag::UserAttribute, &ua) {
+                    o.push("C11:parsed-attribute:rfc-certification-rejected", format!("{what}: {e}"));
+                }
+            }
+            Err(e) => o.push("C11:parsed-attribute:rfc-certification-does-not-parse", format!("{what}: {e}")),
+        }
+    }
+    o
+}
+
 pub fn check(ctx: &Ctx) {
     // the former thorough bounds take seconds: they are the quick tier now; `deep` = thorough
     let quick = false;
@@ -593,6 +706,25 @@ pub fn check(ctx: &Ctx) {
         ic.into_par_iter(),
         run_inline,
     );
+    let mut pa = Vec::new();
+    for key in [KeyKind::Ed25519V4, KeyKind::Ed25519V6, KeyKind::EcdsaP256V4, KeyKind::Rsa2048V4, KeyKind::Ed448V6] {
+        for hash in [1u8, 2] {
+            for long_form in [false, true] {
+                for size in [1usize, 2, 17, 18, 40, 191, 192, 193, 1000, 16319, 16320] {
+                    for typ in [1u8, 100] {
+                        pa.push(ParsedAttrCase { key, hash, long_form, size, typ });
+                    }
+                }
+            }
+        }
+    }
+    ctx.run_space(
+        "parsed_user_attributes",
+        true,
+        "user attribute packets read from the wire (image and unknown type; sub-record sizes 1..16320; sub-record length in its minimal and in the five-octet form) x 5 keys (v4/v6) x 2 hashes: a certification the library makes over the parsed attribute (recording signer) and its verification (recording verifier) hash the packet body as it was on the wire behind 0xD1 + four-octet length; a certification made by the model over the wire bytes verifies",
+        pa.into_par_iter(),
+        run_parsed_attr,
+    );
     ctx.assume("key packet bodies are taken from the library's serialisation (their correctness is C05/C13); the claim here is framing, prefixes, length widths, salt, hashed fields and trailer");
     let _ = codec::sha1;
 }
@@ -603,6 +735,7 @@ pub fn replay(space: &str, case: &Value) -> Option<Outcome> {
         "v3_signatures_verify_only" => replay_as(case, run_v3),
         "crafted_v6_signatures" => replay_as(case, run_crafted_v6),
         "inline_and_cleartext_verification" => replay_as(case, run_inline),
+        "parsed_user_attributes" => replay_as(case, run_parsed_attr),
         _ => None,
     }
 }
